@@ -418,6 +418,15 @@ func c15inSitu(j run.Job, a *run.Acc) {
 			if len(hs.want) > 0 {
 				nonEmpty++
 			}
+			for k := 1; k < len(now); k++ {
+				if now[k-1] >= now[k] { // sets iterate in ascending order without duplicates, also the ones the parser builds
+					d := c.Describe()
+					d["returned_by"] = hs.by
+					d["set"] = now
+					a.Violate("in-situ-set-not-strictly-ascending", "in-situ-set-not-strictly-ascending", d)
+					return
+				}
+			}
 			if fmt.Sprint(now) != fmt.Sprint(hs.want) || hs.v.Len() != len(hs.want) {
 				d := c.Describe()
 				d["returned_by"] = hs.by
